@@ -39,6 +39,7 @@ type Universe struct {
 	SubjClass       []int          // certificates (distinct fingerprints) of the most frequent subject
 	KidClass        []int          // certificates (distinct fingerprints) of the most frequent non-empty SubjectKeyId
 	desc            string
+	pemChecked      sync.Map // token list -> true: the rendered PEM text was checked against the tokens
 	parentsMemo     sync.Map // pool state -> []string: findVerifiedParents results of intermediate observations
 }
 
@@ -253,26 +254,125 @@ func (u *Universe) uid(c *x509.Certificate) int {
 	return -1
 }
 
-func (u *Universe) pemFor(tokens []string) []byte {
-	var out []byte
-	for _, t := range tokens {
-		switch t[0] {
-		case 'c':
-			i, _ := strconv.Atoi(t[1:])
-			out = append(out, pem.EncodeToMemory(&pem.Block{Type: "CERTIFICATE", Bytes: u.DER[i]})...)
-		case 'g':
-			out = append(out, []byte("this is not PEM at all\n-----BEGIN nothing\n")...)
-		case 'n':
-			out = append(out, pem.EncodeToMemory(&pem.Block{Type: "X509 CRL", Bytes: u.DER[1]})...)
-		case 'h':
-			out = append(out, pem.EncodeToMemory(&pem.Block{Type: "CERTIFICATE", Headers: map[string]string{"Proc-Type": "4,ENCRYPTED"}, Bytes: u.DER[2]})...)
-		case 'u':
-			out = append(out, pem.EncodeToMemory(&pem.Block{Type: "CERTIFICATE", Bytes: u.DER[3][:len(u.DER[3])/2]})...)
-		case 't':
-			out = append(out, pem.EncodeToMemory(&pem.Block{Type: "CERTIFICATE", Bytes: append(append([]byte{}, u.DER[4]...), 0)})...)
-		default:
+// A PEM token of the case line: `g` = text that is not PEM (pem.Decode yields no block for it), else
+// `<hex of block.Type>_<len(block.Headers)>_<body>` with body c<i> (DER of certificate i), u<i> (first half of it),
+// t<i> (DER + one trailing byte), e (no bytes).
+type pemTok struct {
+	garbage bool
+	typ     string
+	nh      int
+	kind    byte
+	idx     int
+}
+
+func tk(typ string, nh int, body string) string {
+	h := "-"
+	if typ != "" {
+		h = fmt.Sprintf("%x", typ)
+	}
+	return fmt.Sprintf("%s_%d_%s", h, nh, body)
+}
+
+func parseTok(t string) pemTok {
+	if t == "g" {
+		return pemTok{garbage: true}
+	}
+	f := strings.Split(t, "_")
+	if len(f) != 3 || len(f[2]) == 0 {
+		panic("c08: bad pem token " + t)
+	}
+	var typ []byte
+	if f[0] != "-" {
+		if _, err := fmt.Sscanf(f[0], "%x", &typ); err != nil {
 			panic("c08: bad pem token " + t)
 		}
+	}
+	nh, err := strconv.Atoi(f[1])
+	if err != nil {
+		panic("c08: bad pem token " + t)
+	}
+	tok := pemTok{typ: string(typ), nh: nh, kind: f[2][0]}
+	if tok.kind != 'e' {
+		if tok.idx, err = strconv.Atoi(f[2][1:]); err != nil {
+			panic("c08: bad pem token " + t)
+		}
+	}
+	return tok
+}
+
+// accepted is the harness's own reading of the AppendCertsFromPEM contract (T3 reference, independent of the
+// model): a block counts iff it is a header-less "CERTIFICATE" block whose bytes are a certificate.
+func (t pemTok) accepted() bool {
+	return !t.garbage && t.typ == "CERTIFICATE" && t.nh == 0 && t.kind == 'c'
+}
+
+func anyAccepted(toks []string) bool {
+	for _, t := range toks {
+		if parseTok(t).accepted() {
+			return true
+		}
+	}
+	return false
+}
+
+func (u *Universe) body(t pemTok) []byte {
+	switch t.kind {
+	case 'c':
+		return u.DER[t.idx]
+	case 'u':
+		return u.DER[t.idx][:len(u.DER[t.idx])/2]
+	case 't':
+		return append(append([]byte{}, u.DER[t.idx]...), 0)
+	case 'e':
+		return nil
+	}
+	panic("c08: bad pem body")
+}
+
+// pemFor renders the tokens as PEM text and checks (harness sanity, not a property of zcrypto) that encoding/pem
+// sees exactly the blocks the case line describes and that ParseCertificate fails on exactly the u/t/e bodies.
+func (u *Universe) pemFor(tokens []string) []byte {
+	var out []byte
+	var blocks []pemTok
+	for _, t := range tokens {
+		tok := parseTok(t)
+		if tok.garbage {
+			out = append(out, []byte("this is not PEM at all\n-----BEGIN nothing\n")...)
+			continue
+		}
+		var hd map[string]string
+		if tok.nh > 0 {
+			hd = map[string]string{}
+			for i := 0; i < tok.nh; i++ {
+				hd[fmt.Sprintf("Zv-Header-%d", i)] = "4,ENCRYPTED"
+			}
+		}
+		enc := pem.EncodeToMemory(&pem.Block{Type: tok.typ, Headers: hd, Bytes: u.body(tok)})
+		if enc == nil {
+			panic("c08: cannot encode pem token " + t)
+		}
+		out = append(out, enc...)
+		blocks = append(blocks, tok)
+	}
+	if _, ok := u.pemChecked.Load(strings.Join(tokens, ".")); !ok {
+		rest := out
+		for i := 0; ; i++ {
+			var b *pem.Block
+			b, rest = pem.Decode(rest)
+			if b == nil {
+				if i != len(blocks) {
+					panic(fmt.Sprintf("c08: harness: pem.Decode sees %d blocks in %v", i, tokens))
+				}
+				break
+			}
+			if i >= len(blocks) || b.Type != blocks[i].typ || len(b.Headers) != blocks[i].nh || !bytes.Equal(b.Bytes, u.body(blocks[i])) {
+				panic(fmt.Sprintf("c08: harness: pem.Decode block %d of %v is not what the case line describes", i, tokens))
+			}
+			if _, err := x509.ParseCertificate(b.Bytes); (err == nil) != (blocks[i].kind == 'c') {
+				panic(fmt.Sprintf("c08: harness: ParseCertificate on block %d of %v: %v", i, tokens, err))
+			}
+		}
+		u.pemChecked.Store(strings.Join(tokens, "."), true)
 	}
 	return out
 }
@@ -333,7 +433,18 @@ func (u *Universe) realParents(p *x509.CertPool, certs []*x509.Certificate, wher
 		uids[i] = u.uid(c)
 	}
 	for i, c := range u.Certs {
-		parents, errCert, err := p.ZVFindVerifiedParents(c)
+		// the call writes child.ValidSignature: run it on a private shallow copy of the child (the universe objects are
+		// shared between concurrent cases); before the call the flag is set for odd i, clear for even i
+		cc := *c
+		cc.ValidSignature = i%2 == 1
+		parents, errCert, err := p.ZVFindVerifiedParents(&cc)
+		// T3: ValidSignature is set iff a parent was found, and never cleared
+		if cc.ValidSignature != (i%2 == 1 || len(parents) > 0) {
+			fail("%s: findVerifiedParents(cert %d) left ValidSignature=%v (before: %v) with %d verified parents", where, i, cc.ValidSignature, i%2 == 1, len(parents))
+		}
+		if cc.ValidSignature && i%2 == 0 {
+			tags["parents-set-ValidSignature"] = true
+		}
 		for _, n := range parents {
 			// T3: only pool members whose signature over the child verifies
 			if n < 0 || n >= len(certs) {
@@ -384,7 +495,7 @@ func (u *Universe) realParents(p *x509.CertPool, certs []*x509.Certificate, wher
 			ec = strconv.Itoa(u.uid(errCert))
 			tags["parents-rejected-candidate"] = true
 		}
-		pp = append(pp, fmt.Sprintf("%s/%s/%c", dots(parents), ec, bit(err == nil)))
+		pp = append(pp, fmt.Sprintf("%s/%s/%c/%c", dots(parents), ec, bit(err == nil), bit(cc.ValidSignature)))
 	}
 	return pp
 }
@@ -531,8 +642,12 @@ func exec(line string) zv.Out {
 						fail("nil pool Contains(cert %d)", i)
 					}
 				}
-				if ps, ec, err := p.ZVFindVerifiedParents(u.Certs[0]); len(ps) != 0 || ec != nil || err != nil {
-					fail("nil pool returns parents")
+				for _, v0 := range []bool{false, true} {
+					cc := *u.Certs[0]
+					cc.ValidSignature = v0
+					if ps, ec, err := p.ZVFindVerifiedParents(&cc); len(ps) != 0 || ec != nil || err != nil || cc.ValidSignature != v0 {
+						fail("nil pool returns parents or touches ValidSignature")
+					}
 				}
 			} else {
 				o = u.observePool(p, refs[r], fmt.Sprintf("%s: pool %d", where, r), final, fail, tags)
@@ -575,7 +690,26 @@ func exec(line string) zv.Out {
 	}
 	for k, op := range ops {
 		args := strings.Split(op[1:], ":")
-		if r, _ := strconv.Atoi(args[0]); regs[r] == nil && (op[0] == 'a' || (op[0] == 'p' && strings.Contains(args[1], "c"))) {
+		if r, _ := strconv.Atoi(args[0]); op[0] == 'a' && args[1] == "n" {
+			// AddCert(nil): explicit panic, tested before the receiver is touched (so also on a nil receiver)
+			var val any
+			func() {
+				defer func() { val = recover() }()
+				regs[r].AddCert(nil)
+			}()
+			tag := "addcert-nil-cert-panic"
+			if regs[r] == nil {
+				tag = "addcert-nil-cert-nil-receiver-panic"
+			}
+			if val == nil {
+				return zv.Out{Go: "no-panic", Tags: []string{"addcert-nil-cert-no-panic"}}
+			}
+			v := ""
+			if msg, ok := val.(string); !ok || msg != "adding nil Certificate to CertPool" {
+				v = fmt.Sprintf("op %d %s: AddCert(nil) panics with %v instead of its documented message (nil dereference?)", k, op, val)
+			}
+			return zv.Out{Go: "panic", Viol: v, Tags: []string{tag}}
+		} else if regs[r] == nil && (op[0] == 'a' || (op[0] == 'p' && anyAccepted(strings.Split(args[1], ".")))) {
 			// a certificate is added through a nil *CertPool: the code dereferences nil (the model says panic). The
 			// generators only produce this deliberately; the shrinker may produce it by deleting the Sum that made
 			// the variable live.
@@ -590,9 +724,8 @@ func exec(line string) zv.Out {
 				return false
 			}()
 			if panicked {
-				return zv.Out{Go: "panic", Tags: []string{"nil-receiver-panic"}}
+				return zv.Out{Go: "panic", Tags: []string{"nil-receiver-panic-" + op[:1]}}
 			}
-			_ = k
 			return zv.Out{Go: "no-panic", Tags: []string{"nil-receiver-no-panic"}} // differs from the model's "panic": reported through T2
 		}
 		switch op[0] {
@@ -613,17 +746,31 @@ func exec(line string) zv.Out {
 			ok := regs[r].AppendCertsFromPEM(u.pemFor(toks))
 			wantOK := false
 			for _, t := range toks {
-				if t[0] == 'c' {
+				tok := parseTok(t)
+				switch {
+				case tok.accepted():
 					wantOK = true
-					i, _ := strconv.Atoi(t[1:])
-					if !refs[r].has(u.Certs[i]) {
+					if !refs[r].has(u.Certs[tok.idx]) {
 						// a fresh object parsed from the PEM text; compare by DER below
-						refs[r].add(u.Fresh[i])
+						refs[r].add(u.Fresh[tok.idx])
 					}
-				} else {
-					tags["pem-skip-"+t[:1]] = true
+				case tok.garbage:
+					tags["pem-garbage-text"] = true
+				case tok.typ != "CERTIFICATE":
+					tags["pem-skip-type"] = true
+					if strings.EqualFold(strings.TrimSpace(tok.typ), "CERTIFICATE") || strings.Contains(tok.typ, "CERTIFICATE") {
+						tags["pem-skip-type-near-miss"] = true
+					}
+				case tok.nh != 0:
+					tags[fmt.Sprintf("pem-skip-headers-%d", tok.nh)] = true
+				default:
+					tags["pem-skip-unparsable-"+string(tok.kind)] = true
 				}
 			}
+			if regs[r] == nil {
+				tags["pem-nil-receiver-nothing-accepted"] = true
+			}
+			tags[fmt.Sprintf("pem-ok-%v", ok)] = true
 			if ok != wantOK {
 				fail("op %d %s: AppendCertsFromPEM returned %v, want %v (a certificate block was parsed iff ok)", k, op, ok, wantOK)
 			}
@@ -695,9 +842,9 @@ func (l *live) admit(op string) bool {
 	r, _ := strconv.Atoi(args[0])
 	switch op[0] {
 	case 'a':
-		return l[r]
+		return l[r] && args[1] != "n"
 	case 'p':
-		return l[r] || !strings.Contains(args[1], "c")
+		return l[r] || !anyAccepted(strings.Split(args[1], "."))
 	case 's':
 		l[r] = true
 	}
@@ -738,14 +885,26 @@ func gen(g *zv.Gen) {
 		}
 		rec(prefix, l, depth)
 	}
+	// PEM tokens: C(i) = header-less CERTIFICATE block with the DER of certificate i, and the four skipped shapes
+	C := func(i int) string { return tk("CERTIFICATE", 0, fmt.Sprintf("c%d", i)) }
+	tN, tH, tU, tT := tk("X509 CRL", 0, "c1"), tk("CERTIFICATE", 1, "c2"), tk("CERTIFICATE", 0, "u3"), tk("CERTIFICATE", 0, "t4")
 	emit(0, nil)
+	// AddCert(nil): explicit panic, on a live and on a nil receiver, first or late in a history
+	emit(0, []string{"a0:n"})
+	emit(0, []string{"a2:n"})
+	emit(0, []string{"a0:0", "s2:0:1", "a2:n"})
+	emit(0, []string{"a0:0", "p1:" + C(1), "a1:n"})
+	// AppendCertsFromPEM through a nil pool variable: no dereference unless a block is accepted
+	emit(0, []string{"p2:" + tN + "." + tH + "." + tU + "." + tT + ".g", "p3:" + tk("certificate", 0, "c1"), "p2:" + tk("CERTIFICATE", 2, "c1")})
+	emit(0, []string{"p2:" + tN + "." + tH + "." + C(1)})
+	emit(0, []string{"p2:" + C(1) + "." + tN})
 	// a certificate added through a nil pool variable: nil dereference in code and model alike
 	emit(0, []string{"a0:0", "a2:1"})
-	emit(0, []string{"a0:0", "p3:g.c1"})
+	emit(0, []string{"a0:0", "p3:g." + C(1)})
 	emit(0, []string{"s2:0:1", "a3:1"})
 	// (A) exhaustive short histories from the empty pools on the hand-made universe
 	alpha := []string{"a0:0", "a0:1", "a0:6", "a0:7", "a0:8", "a0:11", "a0:4", "a1:1", "a1:3", "a1:7", "a1:11",
-		"p0:c2.g.c2.c4", "p1:n.c0.u.h.c5", "p0:g.u.t", "p1:c8.c10",
+		"p0:" + C(2) + ".g." + C(2) + "." + C(4), "p1:" + tN + "." + C(0) + "." + tU + "." + tH + "." + C(5), "p0:g." + tU + "." + tT, "p1:" + C(8) + "." + C(10),
 		"s2:0:1", "s0:1:0", "s1:2:0", "s3:2:1", "a2:8", "a3:6"}
 	exhaust(0, nil, alpha, g.N(3, 4))
 	// (B) exhaustive tails after a pre-loaded state: k certificates of one subject (or one key id) in pool 0 -- the
@@ -778,7 +937,7 @@ func gen(g *zv.Gen) {
 				y := class[(k+1)%len(class)]
 				tail := []string{"s2:0:1", "s2:1:0", "s3:2:0",
 					fmt.Sprintf("a0:%d", x), fmt.Sprintf("a1:%d", x), fmt.Sprintf("a2:%d", x), fmt.Sprintf("a3:%d", x),
-					fmt.Sprintf("a0:%d", y), fmt.Sprintf("a2:%d", y), fmt.Sprintf("p2:c%d", x)}
+					fmt.Sprintf("a0:%d", y), fmt.Sprintf("a2:%d", y), "p2:" + C(x)}
 				depth := 3
 				if !g.Quick && (k == 3 || k == 5) {
 					depth = 4
@@ -811,7 +970,7 @@ func gen(g *zv.Gen) {
 						tails := [][]string{
 							{fmt.Sprintf("a2:%d", x), fmt.Sprintf("a%d:%d", rcv, x)},
 							{fmt.Sprintf("a%d:%d", rcv, x), fmt.Sprintf("a2:%d", x)},
-							{fmt.Sprintf("p2:c%d", x), fmt.Sprintf("p%d:g.c%d", rcv, x)},
+							{"p2:" + C(x), fmt.Sprintf("p%d:g.", rcv) + C(x)},
 							{fmt.Sprintf("a2:%d", x), fmt.Sprintf("a%d:%d", rcv, y), fmt.Sprintf("a2:%d", y), fmt.Sprintf("a%d:%d", rcv, x)},
 							{fmt.Sprintf("s3:2:%d", rcv), fmt.Sprintf("a3:%d", x), fmt.Sprintf("a2:%d", x), fmt.Sprintf("a%d:%d", rcv, x)},
 							{fmt.Sprintf("a%d:%d", arg, x), fmt.Sprintf("a2:%d", x), fmt.Sprintf("a%d:%d", rcv, y)},
@@ -825,11 +984,67 @@ func gen(g *zv.Gen) {
 			}
 		}
 	}
+	// (E) AppendCertsFromPEM alone: ALL block lists of length <= 2 over 16 block shapes and of length 3 over 7 of them (thorough: length <= 3 over 20 shapes) -- every
+	// combination of {right type, near-miss types, other type, empty type} x {0,1,2 headers} x {DER, truncated, trailing
+	// byte, empty} that matters for the three `continue`s -- on a pool that already holds certificate 0, on an empty
+	// pool and (only lists without an accepted block) on a nil pool variable
+	{
+		shapes := []string{C(0), C(1), C(11), tk("CERTIFICATE", 1, "c2"), tk("CERTIFICATE", 2, "c3"), tk("certificate", 0, "c2"),
+			tk("CERTIFICATE ", 0, "c2"), tk("TRUSTED CERTIFICATE", 0, "c3"), tk("CERTIFICATE REQUEST", 0, "c3"), tk("X509 CRL", 0, "c4"),
+			tk("CERTIFICAT", 0, "c4"), tk("CERTIFICATE", 0, "u1"), tk("CERTIFICATE", 0, "t1"), tk("CERTIFICATE", 0, "e"), tk("X509 CRL", 1, "u2"), "g"}
+		if !g.Quick {
+			shapes = append(shapes, tk("", 0, "c5"), tk("CERTIFICATES", 0, "c5"), tk(" CERTIFICATE", 0, "c5"), tk("CERTIFICATE", 3, "t5"))
+		}
+		all := func(shapes []string, minLen, maxLen int) {
+			var rec func(l []string)
+			rec = func(l []string) {
+				if len(l) >= minLen && len(l) > 0 {
+					j := strings.Join(l, ".")
+					emit(0, []string{"a0:0", "p0:" + j, "p1:" + j})
+					if !anyAccepted(l) {
+						emit(0, []string{"p2:" + j, "s3:2:2", "p3:" + j})
+					}
+				}
+				if len(l) == maxLen {
+					return
+				}
+				for _, sh := range shapes {
+					rec(append(append([]string{}, l...), sh))
+				}
+			}
+			rec(nil)
+		}
+		if g.Quick {
+			all(shapes, 1, 2)
+			all([]string{C(0), C(1), tk("CERTIFICATE", 1, "c2"), tk("certificate", 0, "c2"), tk("CERTIFICATE", 0, "u1"), tk("X509 CRL", 0, "c4"), "g"}, 3, 3)
+		} else {
+			all(shapes, 1, 3)
+		}
+	}
 	// (D) random longer histories on many universes: every operation picks ANY live pool variable (so receivers,
 	// arguments and results of earlier Sums keep being mutated), certificates are drawn with a per-history bias
 	// towards one subject / key id class
 	n := g.N(5000, 100000)
-	toks := []string{"g", "n", "h", "u", "t"}
+	types := []string{"CERTIFICATE", "CERTIFICATE", "CERTIFICATE", "X509 CRL", "certificate", "CERTIFICATE ", "TRUSTED CERTIFICATE", "CERTIFICAT", "PUBLIC KEY"}
+	skipTok := func(nc int) string {
+		// a block that must be skipped: wrong type, headers, or unparsable bytes (at least one of the three)
+		for {
+			typ, nh, kind := types[r.Intn(len(types))], 0, "c"
+			if r.Chance(35) {
+				nh = 1 + r.Intn(3)
+			}
+			if r.Chance(40) {
+				kind = []string{"u", "t", "e"}[r.Intn(3)]
+			}
+			body := kind
+			if kind != "e" {
+				body = fmt.Sprintf("%s%d", kind, r.Intn(nc))
+			}
+			if t := tk(typ, nh, body); !parseTok(t).accepted() {
+				return t
+			}
+		}
+	}
 	for i := 0; i < n; i++ {
 		useed := uint64(r.Intn(g.N(40, 400)))
 		u := GetUniverse(useed)
@@ -861,16 +1076,19 @@ func gen(g *zv.Gen) {
 			case k < 14:
 				var ts []string
 				for m, nb := 0, 1+r.Intn(4); m < nb; m++ {
-					if r.Chance(60) {
-						ts = append(ts, fmt.Sprintf("c%d", pick()))
-					} else {
-						ts = append(ts, toks[r.Intn(len(toks))])
+					switch {
+					case r.Chance(55):
+						ts = append(ts, C(pick()))
+					case r.Chance(15):
+						ts = append(ts, "g")
+					default:
+						ts = append(ts, skipTok(len(u.Certs)))
 					}
 				}
 				op = fmt.Sprintf("p%d:%s", anyLive(), strings.Join(ts, "."))
 			case k == 14:
 				// PEM text without certificate on any variable, nil ones included
-				op = fmt.Sprintf("p%d:%s", r.Intn(nRegs), toks[r.Intn(len(toks))])
+				op = fmt.Sprintf("p%d:%s.%s", r.Intn(nRegs), skipTok(len(u.Certs)), skipTok(len(u.Certs)))
 			default:
 				op = fmt.Sprintf("s%d:%d:%d", r.Intn(nRegs), r.Intn(nRegs), r.Intn(nRegs))
 			}
@@ -885,5 +1103,5 @@ func gen(g *zv.Gen) {
 
 func init() {
 	zv.Register(&zv.Prop{ID: "C08", Topic: "c08", Gen: gen, Exec: exec,
-		Rule: "universes of 10..12 real Ed25519 certificates (minted with x509.CreateCertificate + one second object with duplicate DER; every universe has >= 4 distinct certificates with one subject and >= 4 with one SubjectKeyId; universe 0 hand-made: six same-subject and four same-key-id certificates, two parents with the same subject+key, a bad signature, children found by AKID and by name among them; the others random with a bias to one subject / key id) x operation histories over FOUR pool variables (two NewCertPool, two nil): AddCert, AppendCertsFromPEM (blocks: certificate / garbage text / non-certificate block / block with headers / truncated DER / DER with trailing byte), Sum (incl. nil receiver/argument, destination = any variable), where every later operation may mutate ANY live pool (receiver, argument and result of earlier Sums). (A) all histories of 3 (quick) / 4 (thorough) operations over a 21-op alphabet on the hand-made universe; (B) all 3-operation tails over a 10-op alphabet after pre-loading a pool with 2,3,5 (thorough 1..7; 4-operation tails for 3 and 5) certificates of one subject / key id; (C) systematic sum-then-mutate-both patterns for every receiver bucket length on 8/60 universes; (D) random histories up to 19 ops on 40/400 universes. After EVERY operation, for EVERY live pool: Size, Certificates, Subjects, Contains for every universe certificate, the three index maps (hook ZVIndex), findVerifiedParents for every universe certificate (real call once per distinct pool state per universe and always after the last operation), Covers for every pair of variables. T3 = independent slice-based ordered set keyed by fingerprint (a value: Sum copies), index maps exactly equal to the positions computed from Certificates(), Sum returns a new pool, CheckSignatureFrom on every returned parent and parents = verifying lookup candidates."})
+		Rule: "universes of 10..12 real Ed25519 certificates (minted with x509.CreateCertificate + one second object with duplicate DER; every universe has >= 4 distinct certificates with one subject and >= 4 with one SubjectKeyId; universe 0 hand-made: six same-subject and four same-key-id certificates, two parents with the same subject+key, a bad signature, children found by AKID and by name among them; the others random with a bias to one subject / key id) x operation histories over FOUR pool variables (two NewCertPool, two nil): AddCert (incl. AddCert(nil) on live and nil receivers), AppendCertsFromPEM (PEM text rendered from block descriptions Type x number of headers x body: CERTIFICATE and the near misses certificate / 'CERTIFICATE ' / TRUSTED CERTIFICATE / CERTIFICATE REQUEST / CERTIFICAT, other and empty types; 0..3 headers; DER / truncated DER / DER with trailing byte / empty body; text that is not PEM; the harness checks that encoding/pem sees exactly the described blocks), Sum (incl. nil receiver/argument, destination = any variable), where every later operation may mutate ANY live pool (receiver, argument and result of earlier Sums). (A) all histories of 3 (quick) / 4 (thorough) operations over a 21-op alphabet on the hand-made universe; (B) all 3-operation tails over a 10-op alphabet after pre-loading a pool with 2,3,5 (thorough 1..7; 4-operation tails for 3 and 5) certificates of one subject / key id; (C) systematic sum-then-mutate-both patterns for every receiver bucket length on 8/60 universes; (D) random histories up to 19 ops on 40/400 universes; (E) ALL PEM block lists of length <= 2 over 16 block shapes and of length 3 over 7 (thorough: <= 3 over 20) on a pre-loaded, an empty and a nil pool. After EVERY operation, for EVERY live pool: Size, Certificates, Subjects, Contains for every universe certificate, the three index maps (hook ZVIndex), findVerifiedParents for every universe certificate incl. the child's ValidSignature after the call (flag preset for odd children; real call on a private copy of the child, once per distinct pool state per universe and always after the last operation), Covers for every pair of variables. T3 = independent slice-based ordered set keyed by fingerprint (a value: Sum copies), index maps exactly equal to the positions computed from Certificates(), Sum returns a new pool, CheckSignatureFrom on every returned parent and parents = verifying lookup candidates, ValidSignature set iff a parent was found and never cleared, AppendCertsFromPEM ok iff a header-less CERTIFICATE block with parsable bytes was present, AddCert(nil) panics with its documented message."})
 }
